@@ -69,6 +69,120 @@ def run_shard(spec):
     return L.run_rows(ID, spec, FAMILY, ctxs=[('v7-vmsa-sec', 'mmu'), ('v6-vmsa', 'mmu')], after=after, keyfn=keyfn)
 
 
+MAIR_BYTES = [0x00, 0x04, 0x44, 0xFF, 0xBB, 0x4F, 0xAA, 0xF4, 0x88, 0xCC]
+
+
+def build_ld(cpu, r, rng, regime, ee):
+    """long-descriptor stage-1 tables for the PL1&0 regime (TTBCR.EAE = 1, TTBR0/TTBR1 split by T0SZ/T1SZ) or the
+    Hyp-mode regime (HTCR/HTTBR).  Returns (tested addresses, descriptions, summary tag)."""
+    from vf import machine as M
+
+    def w64(a, v):
+        M.poke(cpu, a, v.to_bytes(8, 'big' if ee else 'little'))
+    t0 = rng.choice([0, 0, 1, 2, 3, 7, rng.randrange(8)])
+    t1 = rng.choice([0, 0, 1, 2, 3, 7, rng.randrange(8)])
+    epd0 = 1 if rng.random() < 0.08 else 0
+    epd1 = 1 if rng.random() < 0.08 else 0
+
+    def region(tsz, window):
+        level = 1 if tsz < 2 else 2
+        lb = 9 * level - tsz - 4
+        slots = max(1, 0x1000 >> lb)
+        base = window + rng.randrange(slots) * (1 << lb)
+        return level, lb, base
+    lvl0, lb0, base0 = region(t0, T0)
+    lvl1, lb1, base1 = region(t1, T1)
+    if regime == 'hyp':
+        r.htcr.value = t0 | (rng.getrandbits(6) << 8) | (1 << 31)
+        r.httbr = base0 | rng.getrandbits(3)
+        r.hsctlr.m = 1
+        r.hsctlr.ee = ee
+        r.hmair0 = sum(rng.choice(MAIR_BYTES) << (8 * i) for i in range(4))
+        r.hmair1 = sum(rng.choice(MAIR_BYTES) << (8 * i) for i in range(4))
+        t1 = 0
+    else:
+        r.ttbcr.value = (1 << 31) | t0 | (epd0 << 7) | (rng.getrandbits(6) << 8) | (t1 << 16) | (epd1 << 23) | \
+            (rng.getrandbits(6) << 24) | (rng.getrandbits(1) << 22)
+        r.ttbr0 = r.ttbr0_64 = base0 | rng.getrandbits(3)
+        r.ttbr1 = r.ttbr1_64 = base1 | rng.getrandbits(3)
+        r.mair0 = sum(rng.choice(MAIR_BYTES) << (8 * i) for i in range(4))
+        r.mair1 = sum(rng.choice(MAIR_BYTES) << (8 * i) for i in range(4))
+    tested, descs = [], []
+    nxt = [L2BASE]
+
+    def alloc():
+        a = nxt[0]
+        nxt[0] += 0x1000
+        if nxt[0] > 0x1F000:
+            nxt[0] = L2BASE
+        return a
+    split0 = (1 << (32 - t0)) if t0 else (1 << 32)
+    split1 = ((1 << 32) - (1 << (32 - t1))) if t1 else 0
+    for k in range(rng.randrange(2, 9)):
+        ia = rng.choice([rng.getrandbits(32), (split0 - rng.randrange(1, 0x200000)) & 0xFFFFFFFF, (split0 + rng.randrange(0x200000)) & 0xFFFFFFFF,
+                         (split1 + rng.randrange(0x200000)) & 0xFFFFFFFF, (split1 - rng.randrange(1, 0x200000)) & 0xFFFFFFFF,
+                         rng.randrange(0x02000000), 0xFFE00000 | rng.getrandbits(21)])
+        in0 = t0 == 0 or (ia >> (32 - t0)) == 0
+        in1 = (t1 > 0 and (ia >> (32 - t1)) == (1 << t1) - 1) or (t1 == 0 and not in0 and regime != 'hyp')
+        if in1:
+            level, base, start = lvl1, base1, 31 - t1
+        elif in0:
+            level, base, start = lvl0, base0, 31 - t0
+        else:
+            tested.append(ia)
+            descs.append((hex(ia), 'outside both regions'))
+            continue
+        chain = []
+        first = True
+        while True:
+            lo = 39 - 9 * level
+            hi = start if first else 47 - 9 * level
+            first = False
+            da = base | (((ia >> lo) & ((1 << (hi - lo + 1)) - 1)) << 3)
+            if not (0 <= da <= 0x20000 - 8):
+                chain.append('table outside RAM')
+                break
+            upper = (rng.getrandbits(1) << 54) | (rng.getrandbits(1) << 53) | (rng.getrandbits(1) << 52)
+            if rng.random() < 0.15:
+                upper |= rng.getrandbits(4) << 55
+            lower = (rng.getrandbits(1) << 11) | ((0 if rng.random() < 0.12 else 1) << 10) | (rng.getrandbits(2) << 8) | \
+                (rng.getrandbits(2) << 6) | (rng.getrandbits(1) << 5) | (rng.randrange(8) << 2)
+            if regime == 'hyp' and rng.random() < 0.85:
+                upper &= ~(1 << 53)
+                lower = (lower & ~(1 << 11)) | (1 << 6)
+            oa = rng.choice([rng.getrandbits(32), rng.getrandbits(40), rng.randrange(0x20000)]) & ~0xFFF
+            if level == 3:
+                kind = rng.choice(['fault', 'reserved', 'page', 'page', 'page'])
+                if kind == 'fault':
+                    w64(da, rng.getrandbits(63) << 1)
+                elif kind == 'reserved':
+                    w64(da, upper | oa | lower | 0b01)
+                else:
+                    w64(da, upper | oa | lower | 0b11)
+                chain.append('L3 ' + kind)
+                break
+            kind = rng.choice(['fault', 'block', 'block', 'table', 'table', 'table'])
+            if kind == 'fault':
+                w64(da, rng.getrandbits(63) << 1)
+                chain.append('L%d fault' % level)
+                break
+            if kind == 'block':
+                w64(da, upper | oa | lower | 0b01)
+                chain.append('L%d block ap%d af%d' % (level, (lower >> 6) & 3, (lower >> 10) & 1))
+                break
+            nt = alloc()
+            tbl = sum((1 if rng.random() < 0.12 else 0) << b for b in (59, 60, 61, 62, 63))
+            if regime == 'hyp' and rng.random() < 0.85:
+                tbl &= ~((1 << 59) | (1 << 61))
+            w64(da, tbl | nt | (rng.getrandbits(10) << 2 if rng.random() < 0.3 else 0) | 0b11)
+            chain.append('L%d table%s' % (level, ' hier%#x' % (tbl >> 59) if tbl else ''))
+            base = nt
+            level += 1
+        tested.append(ia)
+        descs.append((hex(ia), ' -> '.join(chain)))
+    return tested, descs, 'T0SZ%d/T1SZ%d' % (t0, t1)
+
+
 def decision(spec):
     from vf import lockstep, machine as M, observe
     from vf.ref.model import RefCPU, RefAbort, RefUnpredictable, RefNotModelled
@@ -93,6 +207,9 @@ def decision(spec):
             M.poke(cpu, a, v.to_bytes(4, 'big' if ee else 'little'))
         n = rng.choice([0, 0, 1, 2, 3, 7, rng.randrange(8)])
         mmu_on = rng.random() < 0.92
+        fmt = 'sd'
+        if ctx.cfg['have_lpae'] and rng.random() < 0.6:
+            fmt = rng.choice(['ld', 'ld', 'ld-ns', 'ld-hyp'])
         r.sctlr.m = 1 if mmu_on else 0
         r.sctlr.ee = ee
         r.sctlr.afe = 1 if rng.random() < 0.3 else 0
@@ -109,12 +226,21 @@ def decision(spec):
         r.fcseidr.value = (rng.choice([0, 0, 0, 1, 0x40]) << 25)
         if ctx.cfg['have_security_ext']:
             r.scr.ns = 0
+        if fmt != 'sd':
+            r.scr.ns = 0 if fmt == 'ld' else 1
+            r.hcr.value = 0
+            if fmt == 'ld-hyp':
+                r.fcseidr.value = 0
+            tested, descs, tag = build_ld(cpu, r, rng, 'hyp' if fmt == 'ld-hyp' else 'pl1', ee)
+            if fmt == 'ld-hyp':
+                mmu_on = True
         # a handful of mapped virtual addresses (as MVAs), on both sides of the TTBR split
         split = (1 << (32 - n)) if n else (1 << 32)
-        tested = []
+        if fmt == 'sd':
+            tested = []
+            descs = []
         l2next = L2BASE
-        descs = []
-        for k in range(rng.randrange(2, 9)):
+        for k in range(rng.randrange(2, 9) if fmt == 'sd' else 0):
             mva = rng.choice([rng.getrandbits(32), split - rng.randrange(1, 0x100000), (split + rng.randrange(0x100000)) & 0xFFFFFFFF,
                               rng.randrange(0x02000000), 0xFFF00000 | rng.getrandbits(20)])
             use0 = (n == 0) or (mva >> (32 - n)) == 0
@@ -163,20 +289,24 @@ def decision(spec):
         base_snap = observe.snapshot(cpu)
         for a in range(spec['addrs']):
             mva = rng.choice(tested)
-            mva = (mva + rng.choice([0, 0, 1, -1, 0xFFF, 0x1000, -0x1000, 0xFFFF, 0x100000, -0x100000, 4])) & 0xFFFFFFFF \
-                if rng.random() < 0.6 else mva
+            mva = (mva + rng.choice([0, 0, 1, -1, 0xFFF, 0x1000, -0x1000, 0xFFFF, 0x100000, -0x100000, 4, 0x200000, -0x200000,
+                                     0x40000000, 0x1FFFFF])) & 0xFFFFFFFF if rng.random() < 0.6 else mva
             if rng.random() < 0.1:
                 mva = rng.getrandbits(32)
             # the VA that maps to this MVA under FCSE: identical unless va<31:25> == 0
             va = mva
             ispriv, iswrite = rng.randrange(2), rng.randrange(2)
+            aligned = rng.random() < 0.85
             observe.restore(cpu, base_snap)
             r.cpsr.m = 0b10011 if ispriv else 0b10000
+            if fmt == 'ld-hyp':
+                ispriv = 1
+                r.cpsr.m = 0b11010
             M.activate(cpu)
             pre = observe.snapshot(cpu)
             ref = RefCPU(pre, ctx.cfg)
             try:
-                exp = ('ok', RM.translate_v(ref, va, ispriv, iswrite, 4, True))
+                exp = ('ok', RM.translate_v(ref, va, ispriv, iswrite, 4, aligned))
             except RefAbort as ab:
                 ref.abort_bookkeeping(ab)
                 exp = ('abort', ab.kind, ab.info.get('level'))
@@ -187,7 +317,7 @@ def decision(spec):
                 ls.bump('decisions_not_modelled')
                 continue
             try:
-                d = cpu.translate_address(va, bool(ispriv), bool(iswrite), 4, True)
+                d = cpu.translate_address(va, bool(ispriv), bool(iswrite), 4, aligned)
                 got = ('ok', d.paddress.physicaladdress)
             except DataAbortException as ex:
                 got = ('abort', {'PERMISSION': 'permission', 'TRANSLATION': 'translation', 'DOMAIN': 'domain', 'ACCESS_FLAG': 'accessflag',
@@ -200,8 +330,9 @@ def decision(spec):
             post = observe.snapshot(cpu)
             res['evaluations'] += 1
             ls.bump('decisions_' + exp[0])
-            oc = '%s|%s|%s|%s' % (exp[0] + (':' + exp[1] + str(exp[2]) if exp[0] == 'abort' else ''), 'priv' if ispriv else 'user',
-                                  'w' if iswrite else 'r', 'mmu' if mmu_on else 'off')
+            oc = '%s|%s|%s|%s|%s' % (exp[0] + (':' + exp[1] + str(exp[2]) if exp[0] == 'abort' else ''), 'priv' if ispriv else 'user',
+                                     'w' if iswrite else 'r', 'mmu' if mmu_on else 'off', fmt)
+            ls.bump('decisions_%s_%s' % (fmt.split('-')[0], exp[0]))
             res['sets']['outcomes'].add(oc)
             res['nontrivial'].add(oc + '|n%d|afe%d' % (n, r.sctlr.afe))
             why = None
@@ -212,13 +343,13 @@ def decision(spec):
                 if diffs:
                     why = 'fault syndrome: %s' % [(l, hex(e) if isinstance(e, int) else e, hex(g) if isinstance(g, int) else g) for l, e, g in diffs[:3]]
             if why:
-                key = 'C15|decision|%s|got-%s' % (exp[0] + (':' + exp[1] + '-L' + str(exp[2]) if exp[0] == 'abort' else ''),
+                key = 'C15|decision-%s|%s|got-%s' % (fmt, exp[0] + (':' + exp[1] + '-L' + str(exp[2]) if exp[0] == 'abort' else ''),
                                                    got[0] + (':' + str(got[1]) if got[0] != 'ok' else ''))
-                ls.report(key, 'va %#x N=%d TTBCR=%#x DACR=%#x SCTLR.afe/tre/ee=%d%d%d priv=%d write=%d descs %s: %s' % (
-                    va, n, r.ttbcr.value, r.dacr.value, r.sctlr.afe, r.sctlr.tre, ee, ispriv, iswrite, descs, why),
+                ls.report(key, 'fmt %s va %#x N=%d TTBCR=%#x DACR=%#x SCTLR.afe/tre/ee=%d%d%d priv=%d write=%d descs %s: %s' % (
+                    fmt, va, n, r.ttbcr.value, r.dacr.value, r.sctlr.afe, r.sctlr.tre, ee, ispriv, iswrite, descs, why),
                     dict(va=va, n=n))
         if sidx == 0 and spec['shard'] == 0:
-            res['samples'].append(dict(config=cfgname, N=n, descriptors=descs, mmu_on=mmu_on))
+            res['samples'].append(dict(config=cfgname, format=fmt, N=n, descriptors=descs, mmu_on=mmu_on))
     res['violations'] = list(ls.viol.values())
     return res
 
